@@ -22,7 +22,19 @@ THEORIES = os.path.join(COQ, "theories")
 def sync_coq_copy():
     if COQ == COQ_SRC:
         return
-    os.makedirs(COQ, exist_ok=True)
+    if not os.path.isdir(os.path.join(COQ, "theories")):
+        # warm start: the private copy begins as a faithful copy (sources, compiled files, time stamps) of
+        # the shared development, taken under the shared tree's lock; make then rebuilds exactly what the
+        # regenerated Gen/Consts.v (or a changed source) invalidates, as a warm run in the shared tree would
+        os.makedirs(COQ, exist_ok=True)
+        main_build = os.path.join(VERIF, "build")
+        os.makedirs(main_build, exist_ok=True)
+        with open(os.path.join(main_build, ".lock-coq"), "w") as lf:
+            fcntl.flock(lf, fcntl.LOCK_EX)
+            try:
+                subprocess.run(["rsync", "-a", "--exclude=.Makefile.d", "--exclude=*.tmp", COQ_SRC + "/theories", COQ + "/"], check=False)
+            finally:
+                fcntl.flock(lf, fcntl.LOCK_UN)
     # -c / no -t: a file is transferred only when its content differs and then gets a fresh mtime, so make rebuilds it
     subprocess.run(["rsync", "-rlc", "--delete", "--exclude=Gen/Consts.v", "--include=*/", "--include=*.v", "--exclude=*",
                     COQ_SRC + "/theories", COQ + "/"], check=False)
